@@ -32,7 +32,7 @@ ASSUMPTIONS = [
 ]
 REQUIRED = {"events.grammar": {"quick": 600, "thorough": 30000}, "events.all_formatters_same_stream": {"quick": 600, "thorough": 30000},
             "json.valid": {"quick": 300, "thorough": 15000}, "json.scenario_status": {"quick": 1500, "thorough": 80000},
-            "json.step_result": {"quick": 3000, "thorough": 150000}, "json.readback": {"quick": 300, "thorough": 15000},
+            "json.step_result": {"quick": 3000, "thorough": 150000}, "json.match_arguments_name_the_matched_text": {"quick": 2000, "thorough": 100000}, "json.readback": {"quick": 300, "thorough": 15000},
             "plain.steps": {"quick": 1000, "thorough": 50000}, "progress2.chars": {"quick": 200, "thorough": 10000},
             "progress3.chars": {"quick": 500, "thorough": 25000}, "json.readback_file": {"quick": 100, "thorough": 300},
             "factory.own_file_has_own_report": {"quick": 150, "thorough": 6000},
@@ -94,10 +94,17 @@ class Recorder(object):
 
     def match(self, match):
         self.events.append(("match", bool(getattr(match, "location", None))))
+        try:
+            self._last_match_args = [(a.name, a.original, a.value) for a in (match.arguments or [])]
+        except Exception:
+            self._last_match_args = None
         self._fwd("match", match)
 
     def result(self, step):
         self.events.append(("result", step.name, step.status.name, id(step)))
+        if getattr(self, "_last_match_args", None) is not None:
+            self.__dict__.setdefault("match_args", {})[id(step)] = self._last_match_args
+            self._last_match_args = None
         self._fwd("result", step)
 
     def eof(self):
@@ -275,6 +282,17 @@ def check_json(mon, case, obs, text, rec, W, dry_undefined):
                     jt = j.get("text")
                     jt = "\n".join(jt) if isinstance(jt, list) else jt
                     mon.check("json.docstring", jt == str(x.text), lambda: W(scenario=s.name, step=x.name, got=j.get("text"), want=str(x.text)))
+                # the arguments of the match: the report names, for every argument, the text that was matched in the step
+                # (as "original" when the converted value is something else, otherwise the value IS that text)
+                margs = rec.__dict__.get("match_args", {}).get(id(x))
+                if margs is not None and isinstance(j.get("match"), dict) and x.status.name in ("passed", "failed", "error", "skipped"):
+                    jargs = j["match"].get("arguments", [])
+                    texts = [a.get("original", a.get("value")) for a in jargs]
+                    want_texts = [orig for (_n, orig, _v) in margs]
+                    mon.check("json.match_arguments_name_the_matched_text",
+                              len(jargs) == len(margs) and all(str(t) == str(w) for t, w in zip(texts, want_texts) if w is not None)
+                              and all(w is not None and str(w) in x.name for w in want_texts if w is not None),
+                              lambda: W(scenario=s.name, step=x.name, report=jargs, match_event=[list(map(repr, m)) for m in margs]))
                 had_event = any(r[0] == x.name for r in got_results) and idx < len(jsteps)
                 sent = [r for r in got_results if r[0] == x.name]
                 if "result" in j:
